@@ -274,7 +274,7 @@ Strip(v) ==
 \* a variable's value: the caller's value takes precedence over the default
 VarNames(vds) == {vds[i].n : i \in DOMAIN vds}
 VarDef(vds, n) == CHOOSE vd \in Range(vds) : vd.n = n
-Given(given, n) == n \in DOMAIN given /\ given[n].k # "null"
+Given(given, n) == n \in DOMAIN given       \* (null is a value: the default is for a variable left out)
 VarValue(vd, given) == IF Given(given, vd.n) THEN given[vd.n] ELSE IF vd.hasDef THEN vd.def ELSE Null
 
 \* The outcome the property prescribes for a field  f(x: <lit>)  whose argument x has declared type at,
